@@ -28,8 +28,12 @@ import warnings
 
 warnings.simplefilter("ignore")
 
+import asyncio  # noqa: E402
+import io  # noqa: E402
+
 import joblib  # noqa: E402
-from joblib import Memory  # noqa: E402
+from joblib import Memory, register_store_backend  # noqa: E402
+from joblib._store_backends import StoreBackendBase, StoreBackendMixin  # noqa: E402
 from joblib.func_inspect import filter_args  # noqa: E402
 
 
@@ -114,6 +118,23 @@ def callables():
             "[].append": [].append, "[1].append": [1].append, "math.sqrt": math.sqrt, "math.floor": math.floor,
             "partial(a.conv,1)": functools.partial(a.conv, 1), "partial(b.conv,1)": functools.partial(b.conv, 1),
             "partial(a.conv,y=2)": functools.partial(a.conv, y=2)}
+
+
+def mutate_in_place(v):
+    """modify every mutable container reachable from v (lists, dicts, sets)"""
+    if isinstance(v, list):
+        for e in v:
+            mutate_in_place(e)
+        v.append("MUTATED-BY-CALLER")
+    elif isinstance(v, dict):
+        for e in list(v.values()):
+            mutate_in_place(e)
+        v["MUTATED-BY-CALLER"] = 1
+    elif isinstance(v, set):
+        v.add("MUTATED-BY-CALLER")
+    elif isinstance(v, tuple):
+        for e in v:
+            mutate_in_place(e)
 
 
 def describe(v):
@@ -260,7 +281,7 @@ def source_for(sc, k):
     ver = sc["versions"][str(k)]
     params = vparams(sc, k)
     factory = ver.get("kind") == "factory"
-    ignore = set(sc["ignore"])
+    ignore = set(sc.get("body_ignore", sc["ignore"]))
     parts = []
     seen_po = False
     n_po = sum(1 for p in params if p[1] == "po")
@@ -357,6 +378,8 @@ def source_for(sc, k):
     elif kind == "nested":
         body = ("def make():\n    def g(%s):\n        _COUNT[0] += 1\n        return %s\n    return g\n"
                 "g = make()\n" % (sig, ret))
+    elif kind == "async":
+        body = "async def g(%s):\n    _COUNT[0] += 1\n    return %s\n" % (sig, ret)
     else:
         body = "def g(%s):\n    _COUNT[0] += 1\n    return %s\n" % (sig, ret)
     return pad + "_COUNT = [0]\n" + body
@@ -383,6 +406,60 @@ def ideal_filter_args(func, ignore, pos, kw):
         out.pop(item)  # KeyError = the ignore list itself is wrong (never generated)
     return out
 
+
+class _ObjWriter(io.BytesIO):
+    def __init__(self, objects, key):
+        io.BytesIO.__init__(self)
+        self._objects, self._key = objects, key
+
+    def close(self):
+        if not self.closed:
+            self._objects[self._key] = self.getvalue()
+        io.BytesIO.close(self)
+
+
+class ObjectStoreBackend(StoreBackendBase, StoreBackendMixin):
+    """key -> bytes store implementing the documented StoreBackendBase interface; a 'location' exists when it is a
+    key, a prefix of a key, or was created explicitly (as in S3-like stores).  Shared within ONE process."""
+    objects = {}
+    prefixes = set()
+
+    def _open_item(self, f, mode):
+        if "w" in mode:
+            return _ObjWriter(self.objects, f)
+        try:
+            return io.BytesIO(self.objects[f])
+        except KeyError:
+            raise FileNotFoundError(f)
+
+    def _item_exists(self, location):
+        return (location in self.objects or location in self.prefixes
+                or any(k_.startswith(location.rstrip("/") + "/") for k_ in self.objects))
+
+    def _move_item(self, src, dst):
+        self.objects[dst] = self.objects.pop(src)
+
+    def create_location(self, location):
+        self.prefixes.add(location)
+
+    def clear_location(self, location):
+        prefix = location.rstrip("/") + "/"
+        for k_ in [k_ for k_ in self.objects if k_ == location or k_.startswith(prefix)]:
+            del self.objects[k_]
+        for p_ in [p_ for p_ in self.prefixes if p_ == location or p_.startswith(prefix)]:
+            self.prefixes.discard(p_)
+
+    def get_items(self):
+        return []
+
+    def configure(self, location, verbose=0, backend_options=None):
+        self.location = location
+        self.verbose = verbose
+        self.compress = (backend_options or {}).get("compress", False)
+        self.mmap_mode = None
+
+
+register_store_backend("verif-objstore", ObjectStoreBackend)
 
 VALID = [True]
 
@@ -440,7 +517,8 @@ def main():
     sys.stdout = sys.stderr
     sc = job["scenario"]
     moddir = job["moddir"]
-    mem = Memory(job["cache"], verbose=sc.get("verbose", 0), mmap_mode=sc.get("mmap_mode"), compress=tuple(sc["compress"]) if isinstance(sc["compress"], list)
+    mem = Memory(job["cache"], backend="verif-objstore" if sc.get("backend") == "objstore" else "local",
+                 verbose=sc.get("verbose", 0), mmap_mode=sc.get("mmap_mode"), compress=tuple(sc["compress"]) if isinstance(sc["compress"], list)
                  else sc["compress"])
     refs = []
     if os.path.exists(job["refs"]):
@@ -459,6 +537,10 @@ def main():
 
     def wkey(k, L):
         return k if not L else (k, L)
+    ign_of = {}       # wrapper key -> the ignore list the SCENARIO gave it (not what the wrapper believes)
+
+    def run_maybe_async(k, x):
+        return asyncio.run(x) if sc["versions"][str(k)].get("kind") == "async" else x
     valid = VALID
     last_entry = [None]
 
@@ -571,6 +653,18 @@ def main():
                 elif how == "roundtrip":
                     wraps[k] = _p.loads(_p.dumps(w))
                 res["o"] = "skip"
+            elif kind == "recache":
+                # RE-DECORATION of an already cached function, with other options or with none:
+                # memory.cache(cached_g, ignore=...) / memory.cache(cached_g)
+                k, opts = ev[1], ev[2]
+                if opts.get("ignore") is None:
+                    wraps[k] = mem.cache(wraps[k])
+                    ign_of[k] = []
+                else:
+                    wraps[k] = mem.cache(wraps[k], ignore=list(opts["ignore"]),
+                                         cache_validation_callback=Validator() if sc.get("callback", True) else None)
+                    ign_of[k] = list(opts["ignore"])
+                res["o"] = "skip"
             elif kind == "rewrap":
                 # the wrapper goes through pickle / copy (as when it is sent to a worker): __getstate__ drops the
                 # timestamp and the code id; the copy replaces the original
@@ -630,6 +724,7 @@ def main():
                 wraps[wkey(k, L)] = mem_at(L).cache(
                     objs[k], ignore=list(sc["ignore"]),
                     cache_validation_callback=Validator() if sc.get("callback", True) else None)
+                ign_of[wkey(k, L)] = list(sc["ignore"])
                 res["o"] = "done"
                 res["func_id"] = wraps[wkey(k, L)].func_id
             elif kind in ("call", "shelve", "check"):
@@ -637,6 +732,8 @@ def main():
                 pos = [dec(v) for v in cs["pos"]]
                 kw = {n: dec(v) for n, v in cs["kw"]}
                 w = wraps[wkey(k, ev[4] if len(ev) > 4 else 0)]
+                via_eval = cs.get("via") == "eval"      # memory.eval(cached_g, ...): a fresh decoration without options
+                eff_ignore = [] if via_eval else ign_of.get(wkey(k, ev[4] if len(ev) > 4 else 0), list(sc["ignore"]))
                 # oracles: the undecorated twin and Python's own binding
                 try:
                     ba = inspect.signature(plains[k]).bind(*pos, **kw)
@@ -646,9 +743,9 @@ def main():
                         raise _RawForm()
                     keep = {n: v for n, v in ba.arguments.items()
                             if {"va": "*", "vk": "**"}.get(
-                                {p[0]: p[1] for p in vparams(sc, k)}[n], n) not in sc["ignore"]}
+                                {p[0]: p[1] for p in vparams(sc, k)}[n], n) not in eff_ignore}
                     res["bind_r"] = canon(keep)
-                    res["expect"] = canon(plains[k](*pos, **kw))
+                    res["expect"] = canon(run_maybe_async(k, plains[k](*pos, **kw)))
                 except _RawForm:
                     # joblib keys such callables by the call form itself ({'*': args, '**': kwargs})
                     res["bind"] = res["bind_r"] = canon({"*": list(pos), "**": dict(kw)})
@@ -657,14 +754,15 @@ def main():
                     res["bind"] = None
                 # observations that do not touch the store
                 try:
-                    res["args_id"] = w._get_args_id(*pos, **kw)
+                    res["args_id"] = (mem.cache(objs[k])._get_args_id(*pos, **kw) if via_eval
+                                      else w._get_args_id(*pos, **kw))
                 except Exception as e:  # noqa
                     res["args_id"] = None
                     res["args_id_exc"] = type(e).__name__
                 if res.get("bind") is not None:
                     try:
-                        real = filter_args(objs[k], list(sc["ignore"]), tuple(pos), dict(kw))
-                        res["fa_ok"] = canon(real) == canon(ideal_filter_args(plains[k], sc["ignore"], pos, kw))
+                        real = filter_args(objs[k], list(eff_ignore), tuple(pos), dict(kw))
+                        res["fa_ok"] = canon(real) == canon(ideal_filter_args(plains[k], eff_ignore, pos, kw))
                     except Exception:  # noqa
                         res["fa_ok"] = False
                 valid[0] = bool(vld)
@@ -673,11 +771,11 @@ def main():
                 before = counts[k][0]
                 try:
                     if kind == "call":
-                        out = w(*pos, **kw)
+                        out = run_maybe_async(k, mem.eval(w, *pos, **kw) if via_eval else w(*pos, **kw))
                         res["o"] = "val"
                         res["v"] = canon(out)
                     elif kind == "shelve":
-                        r = w.call_and_shelve(*pos, **kw)
+                        r = run_maybe_async(k, w.call_and_shelve(*pos, **kw))
                         refs.append(r)
                         res["o"] = "ref"
                         res["r"] = len(refs) - 1
@@ -694,8 +792,10 @@ def main():
                 res["o"] = "skip"     # no such reference (an earlier call_and_shelve raised)
             elif kind == "get":
                 try:
-                    res["v"] = canon(refs[ev[1]].get())
+                    got = refs[ev[1]].get()
+                    res["v"] = canon(got)
                     res["o"] = "val"
+                    mutate_in_place(got)      # the caller scribbles on what it received: the store must not notice
                 except Exception as e:  # noqa
                     res["o"] = "raise"
                     res["e"] = type(e).__name__
